@@ -22,7 +22,7 @@ SPEC = dict(
         "initial {pep440_version} text is what bumpver itself renders for the current version (setup only)",
         "one case in eight is a legacy {..} layout (decorated {version} patterns, own and shared lines, LF/CRLF/CR)",
     ],
-    required=["update_ok", "show_ok", "updates_with_listed_config_file_lacking_the_own_line_pattern", "set_version_in_noncanonical_spelling", "updates_with_repeated_pattern_in_mixed_eol_file", "aliased_path_entry_updates", "updates_with_end_anchored_patterns", "shared_line_updates", "updates_with_a_pattern_on_several_lines",
+    required=["update_ok", "show_ok", "updates_where_a_pattern_also_matches_inside_another_occurrence", "updates_with_listed_config_file_lacking_the_own_line_pattern", "set_version_in_noncanonical_spelling", "updates_with_repeated_pattern_in_mixed_eol_file", "aliased_path_entry_updates", "updates_with_end_anchored_patterns", "shared_line_updates", "updates_with_a_pattern_on_several_lines",
               "legacy_updates_ok", "legacy_shared_line_updates"],
     anchors=[("parse", "iter_matches"), ("v2rewrite", "rewrite_lines"), ("v2patterns", "normalize_pattern"),
              ("config", "_parse_raw_config")],
@@ -31,10 +31,61 @@ SPEC = dict(
 EOLS = ("\n", "\n", "\r\n", "\r", "mixed")
 
 
+# one occurrence per pattern on the line, well apart - but the regex of the later-listed pattern also matches INSIDE the
+# occurrence of the earlier one (`1.2.3` inside `v1.2.3`): (version pattern, current, pep440 form, update args, new, new pep440)
+INNER = [
+    ("vMAJOR.MINOR.PATCH", "v1.2.3", "1.2.3", ["--patch"], "v1.2.4", "1.2.4"),
+    ("vYYYY.BUILD[-TAG]", "v2024.1001-beta", "2024.1001b0", ["--date", "2024-06-01"], "v2024.1002-beta", "2024.1002b0"),
+    ("vMAJOR.MINOR.PATCH[-TAGNUM]", "v1.9.0-rc1", "1.9.0rc1", ["--tag-num"], "v1.9.0-rc2", "1.9.0rc2"),
+    ("vYYYY.0M.INC0", "v2024.05.3", "2024.5.3", ["--date", "2024-05-30"], "v2024.05.4", "2024.5.4"),
+]
+INNER_LINES = ["Release {v} (on PyPI as {p})", "full = \"{v}\"; pep = \"{p}\"", "{v} -> pip install pkg=={p} # latest"]
+
+
 def cases(ctx):
     n = ctx.size(4000, 100000)
     for i in range(n):
         yield {"pseed": ctx.rng.getrandbits(48), "legacy": i % 8 == 7}
+    k = 0
+    for ii in range(len(INNER)):
+        for li in range(len(INNER_LINES)):
+            for eol in ("\n", "\r\n"):
+                for fmt in ("toml", "cfg"):
+                    if ctx.mine(k):
+                        yield {"kind": "inner-match", "i": ii, "line": li, "eol": eol, "fmt": fmt}
+                    k += 1
+
+
+def run_inner(ctx, case):
+    vp, cur, pep, uargs, new, new_pep = INNER[case["i"]]
+    eol = case["eol"]
+    tmpl = INNER_LINES[case["line"]]
+    lines = ["# notes", tmpl.format(v=cur, p=pep), "", f"pip install pkg=={pep}", f"tag {cur}", "end"]
+    want = eol.join(ln.replace(cur, new).replace(pep, new_pep) for ln in lines)
+    if case["fmt"] == "toml":
+        cfg = (f'[bumpver]\ncurrent_version = "{cur}"\nversion_pattern = "{vp}"\n\n[bumpver.file_patterns]\n'
+               '"bumpver.toml" = [\'current_version = "{version}"\']\n"README.md" = ["{version}", "{pep440_version}"]\n')
+        cfg_name = "bumpver.toml"
+    else:
+        cfg = (f"[bumpver]\ncurrent_version = {cur}\nversion_pattern = {vp}\n\n[bumpver:file_patterns]\n"
+               "setup.cfg =\n    current_version = {version}\nREADME.md =\n    {version}\n    {pep440_version}\n")
+        cfg_name = "setup.cfg"
+    d = harness.new_project({cfg_name: cfg.encode(), "README.md": eol.join(lines).encode()})
+    try:
+        res = harness.invoke(["update", "--no-fetch"] + uargs, cwd=d)
+        ctx.count("updates_where_a_pattern_also_matches_inside_another_occurrence")
+        ctx.evaluated(("inner-match", vp, case["line"], eol, case["fmt"]), sample={"line": lines[1], "argv": res.args})
+        a = res.record_value("New Version: ")
+        if res.exit_code != 0 or a != new:
+            ctx.violation("other:inner_match_update_failed", f"{vp!r} {lines[1]!r}: exit {res.exit_code}, announced {a!r} (expected "
+                          f"{new!r}) {res.errors()[-2:]} {res.crash or ''}", case=case)
+            return
+        got = harness.snapshot(d)["README.md"].decode()
+        if got != want:
+            ctx.violation("other:stale-or-wrong-occurrence", f"patterns ['{{version}}', '{{pep440_version}}'] (vp {vp!r}): after the "
+                          f"update to {new!r} the file reads {got!r}, expected {want!r}", case=case)
+    finally:
+        harness.rm_dir(d)
 
 
 def run_legacy(ctx, case, R, mods):
@@ -90,6 +141,8 @@ def noncanonical_numeric(R, vp, text):
 
 
 def run_case(ctx, case):
+    if case.get("kind") == "inner-match":
+        return run_inner(ctx, case)
     R = random.Random(case["pseed"])
     mods = updates.bvmods()
     tdy = updates.today()
